@@ -90,7 +90,13 @@ func FormatNumber(num int64) string {
 
 // FormatFloat64 turns a float64 constant into a string.
 func FormatFloat64(floatNum float64) string {
-	return strconv.FormatFloat(floatNum, 'f', -1, 64)
+	s := strconv.FormatFloat(floatNum, 'f', -1, 64)
+	if !strings.ContainsAny(s, ".nI") { // NaN and Inf stay as they are.
+		// An integral value keeps a fractional part: "1" is the number 1, and
+		// the float syntax requires a '.'.
+		s += ".0"
+	}
+	return s
 }
 
 // FormatTime formats a time instant (nanoseconds since Unix epoch) as an ISO 8601 string.
